@@ -180,7 +180,7 @@ def lane_main(args):
             agg["loc_pairs"].add(f"{a}|{b}")
         if want_digests:
             agg["digests"].append([i, rec["digest"], st, rec.get("signature")])
-        if len(agg["samples"]) < 2 and rec["switches"] > 1:
+        if (not agg["samples"]) or (len(agg["samples"]) < 2 and rec["switches"] > 1):
             agg["samples"].append({"index": i, "workload": workload, "knobs": knobs,
                                    "decisions_head": rec["decisions"][:30],
                                    "steps": rec["steps"], "status": st})
